@@ -176,6 +176,25 @@ Accepts(op, ta, tb) ==
       [] op \in {"LazyAnd", "LazyOr", "All", "Any"} -> FALSE
 
 (***************************************************************************)
+(* Extern functions.  The embedder registers named functions taking one or *)
+(* two values; the operations [o |-> "un"/"bin", op |-> "Ffi", f |-> name] *)
+(* call them.  The specification fixes a small registry:                   *)
+(*   id(a[, b]) = a     second(a, b) = b (an error with one argument)      *)
+(*   fail(..)   = error                 sym(..) = the string "read"        *)
+(*   isint(a..) = a is an integer       any other name: not registered     *)
+(* An error of the function, or an unregistered name, is an evaluation     *)
+(* error; a closure is never a valid argument.                             *)
+(***************************************************************************)
+ExternNames == {"id", "second", "fail", "sym", "isint"}
+Extern(f, a, hasB, b) ==
+    CASE f = "id"     -> a
+      [] f = "second" -> IF hasB THEN b ELSE Err
+      [] f = "fail"   -> Err
+      [] f = "sym"    -> Str("read")
+      [] f = "isint"  -> Bool(a.t = "int")
+      [] OTHER -> Err
+
+(***************************************************************************)
 (* The stack machine.  An operation is                                     *)
 (*   [o |-> "val", v]  [o |-> "var", n]  [o |-> "un", op]  [o |-> "bin", op]*)
 (*   [o |-> "clo", params (sequence of names), body (sequence of ops)]     *)
@@ -228,11 +247,12 @@ Run(ops, stack, env) ==
           [] op.o = "clo" -> Run(rest, Append(stack, Clo(op.params, op.body)), env)
           [] op.o = "un" ->
                 IF n < 1 \/ stack[n].t = "CLO" THEN Err
-                ELSE LET r == Unary(op.op, stack[n]) IN
+                ELSE LET r == IF op.op = "Ffi" THEN Extern(op.f, stack[n], FALSE, Null) ELSE Unary(op.op, stack[n]) IN
                      IF IsErr(r) THEN Err ELSE Run(rest, Append(SubSeq(stack, 1, n - 1), r), env)
           [] op.o = "bin" ->
                 IF n < 2 \/ stack[n - 1].t = "CLO" THEN Err
-                ELSE LET r == IF stack[n].t = "CLO" THEN ApplyClosure(op.op, stack[n - 1], stack[n], env)
+                ELSE LET r == IF stack[n].t = "CLO" THEN (IF op.op = "Ffi" THEN Err ELSE ApplyClosure(op.op, stack[n - 1], stack[n], env))
+                              ELSE IF op.op = "Ffi" THEN Extern(op.f, stack[n - 1], TRUE, stack[n])
                               ELSE Binary(op.op, stack[n - 1], stack[n]) IN
                      IF IsErr(r) THEN Err
                      ELSE IF r.t = "SKIP" THEN r
